@@ -19,10 +19,17 @@ Three freedoms the real code has are accepted (all behaviour-preserving):
     sum keeps its state (`cur`, `failed`) across bucket updates of the same observation, so bucket
     updates may also fall between the loop's load and its compare-exchange.
 (b) a collector may skip the `fetch_add(0)` of `addHot c` on a bucket out of which it swapped 0
-    (`skipTask`): the machine then takes the abstract `addHot` step (it adds 0) itself.
+    (`skipTask`): the machine takes the abstract `addHot` step (it adds 0) itself, right after the swap
+    that read the 0, and remembers the bucket (`Pc.zeros`): if the code does issue the `fetch_add(0)`
+    later, it is accepted once, as a stutter.
 (c) every `fetch_add` on an integer cell (claim and flip on shard_and_count, bucket updates, publish and
     `addCount` on a shard's count) may be written as a load + compare-exchange loop (`fetchAdd`): the
     successful exchange carries the site's ordering and is the step; loads and failed exchanges are stutters.
+
+(d) a collector between its successful spin and its unlock may take its steps in ANY order subject to:
+    every cold cell is swapped out once, a drained value is added to the hot cell only after that cell's
+    swap, `unlock` comes last (`colStep`: the event's location selects the step of the task's list).
+    While it spins, a load of the cold count before a compare-exchange attempt is a stutter.
 
 Memory cells are exact integers (`Nat` counts, `Int` cells). Events carry 64-bit patterns: the
 machine compares them with the *encoding* of its own value (`encSc` for shard_and_count, `u64OfInt`
@@ -62,6 +69,7 @@ structure Pc where
   b : Bool := false                -- `sum`: the shard it learned
   val : Int := 0                   -- `sum`: the value it read
   c0 : List Obs := []              -- ghost: `claimed` when the call started
+  zeros : List Nat := []           -- `collect`: buckets out of which 0 was swapped and whose `addHot` (of 0) was taken silently
 
 /-- ghost record of one returned snapshot: `claimed` when the collect call started, the cut, `claimed`
     at the unlock, and the value the call returns -/
@@ -159,7 +167,7 @@ def hits (k : Nat) (b : Bool) (loc : Loc) (p : Nat × Int) : Bool :=
   if p.1 < k then loc == .bkt b p.1 else loc == .sum b
 
 /-- split a list at its FIRST entry satisfying `f`: (entries before, that entry, entries after) -/
-def splitFirst (f : Nat × Int → Bool) : List (Nat × Int) → Option (List (Nat × Int) × (Nat × Int) × List (Nat × Int))
+def splitFirst {α : Type} (f : α → Bool) : List α → Option (List α × α × List α)
   | [] => none
   | p :: l =>
     if f p then some ([], p, l)
@@ -189,6 +197,100 @@ def obsEntry (k : Nat) (c : Hp.St) (e : Ev) (pc : Pc) (o : Obs) (b : Bool) (cell
 
 def plainR (cuts : Cuts) (r : Except String Res) : Except String (Res × Cuts) :=
   match r with | .ok x => .ok (x, cuts) | .error m => .error m
+
+/-- the location a step of a collector whose cold shard is `cold` works on (cells `< k` are buckets, the
+    other cell is the sum): a `swap` on the cold shard, an `addHot` on the hot shard -/
+def stepLoc (k : Nat) (cold : Bool) : CStep → Loc
+  | .swap cell => if cell < k then .bkt cold cell else .sum cold
+  | .addHot cell => if cell < k then .bkt (!cold) cell else .sum (!cold)
+  | .addCount => .cnt (!cold)
+  | .unlock => .lk
+
+def showStep : CStep → String
+  | .swap cell => s!"swap {cell}"
+  | .addHot cell => s!"add {cell}"
+  | .addCount => "addCount"
+  | .unlock => "unlock"
+
+/-- a collector may SKIP the no-op `fetch_add(0)` of its step `addHot cell` on a bucket (`cell < k`)
+    when the value `x` it swapped out of the cold bucket is 0: `rest` being what is left to do after that
+    swap, the result is what is left after the `addHot cell` too (`none`: nothing is skipped - the cell is
+    the sum, `x` is not 0, or there is no such step). The machine takes that step (it adds 0, the shared
+    state does not change) silently, right after the swap. -/
+def skipTask (k cell : Nat) (x : Int) (rest : List CStep) : Option (List CStep) :=
+  if decide (cell < k) && decide (x = 0) && !rest.contains (CStep.swap cell) then
+    match splitFirst (fun st => st == CStep.addHot cell) rest with
+    | some (m1, _, m2) => some (m1 ++ m2)
+    | none => none
+  else none
+
+/-- what the swap of cell `cell` of the cold shard does (`rest`: what is left to do after it): the cold cell
+    is reset, its value is the drained value `taken cell`; if it is a bucket that held 0, the `addHot` of that
+    bucket is taken as well (`skipTask`) and the bucket is remembered in `zeros` -/
+def swapRes (k : Nat) (c : Hp.St) (pc : Pc) (cold : Bool) (ov cell : Nat) (rest : List CStep) (taken : Cells)
+    (S : List Obs) : Res :=
+  let x := (c.sh cold).cell cell
+  let c' : Hp.St := { c with sh := modSh c.sh cold (fun sd => { sd with cell := setCell sd.cell cell 0 }) }
+  match skipTask k cell x rest with
+  | some rest' => (c', { pc with task := some (.colMove cold ov rest' (setCell taken cell x) S), zeros := cell :: pc.zeros }, none)
+  | none => (c', { pc with task := some (.colMove cold ov rest (setCell taken cell x) S) }, none)
+
+/-- one event of a collector between its successful spin and its unlock (task `colMove cold ov todo taken S`).
+    The steps of `todo` may be taken in ANY order: the event's location selects the step (the first step of
+    the list on that location; `swap cell` works on the cold shard, `addHot cell` on the hot one), `l1 ++ l2`
+    is what remains. Rejected: an event on a location no remaining step works on (so no swap is done twice),
+    an `addHot cell` while `swap cell` is still to be done, an `unlock` while anything else is left.
+    A swap that reads 0 out of a bucket also takes the `addHot` of that bucket (`skipTask`); the
+    `fetch_add(0)` on that hot bucket, should the code issue it, is then accepted once as a stutter (`zeros`). -/
+def colStep (k : Nat) (c : Hp.St) (cuts : Cuts) (e : Ev) (pc : Pc) (cold : Bool) (ov : Nat) (todo : List CStep)
+    (taken : Cells) (S : List Obs) : Except String (Res × Cuts) :=
+  let plain := plainR cuts
+  match splitFirst (fun st => stepLoc k cold st == parseLoc e.loc) todo with
+  | some (l1, .swap cell, l2) =>
+    let x := (c.sh cold).cell cell
+    let r : Res := swapRes k c pc cold ov cell (l1 ++ l2) taken S
+    if cell < k then
+      plain <| guard (e.k == "W" && parseLoc e.loc == .bkt cold cell && ordGe e.ord "AcqRel" && e.a == 0 && e.res == u64OfInt x)
+        s!"collect: expected swap AcqRel 0 on bucket {cell} of shard {cold} -> {x}" (.ok r)
+    else
+      plain <| guard (e.k == "W" && parseLoc e.loc == .sum cold && ordGe e.ord "AcqRel" && e.a == 0 && sumRange x && e.res == f64OfInt x)
+        s!"collect: expected swap AcqRel 0.0 on the sum of shard {cold} -> {hexStr (f64OfInt x)}" (.ok r)
+  | some (l1, .addHot cell, l2) =>
+    let x := (c.sh (!cold)).cell cell
+    let r : Res := ({ c with sh := modSh c.sh (!cold) (fun sd => { sd with cell := setCell sd.cell cell (sd.cell cell + taken cell) }) },
+                    { pc with task := some (.colMove cold ov (l1 ++ l2) taken S), cur := none, failed := false }, none)
+    if (l1 ++ l2).contains (CStep.swap cell) then
+      .error s!"collect: add to cell {cell} of shard {!cold} before cell {cell} of shard {cold} was swapped out"
+    else if cell < k then
+      plain <| fetchAdd e c pc (.bkt (!cold) cell) "Relaxed" (u64OfInt (taken cell)) (u64OfInt x) true
+        s!"collect: expected fetch_add Relaxed {taken cell} on bucket {cell} of shard {!cold} -> {x}" r
+    else plain <| casLoop e c pc (!cold) cell (taken cell) r
+  | some (l1, .addCount, l2) =>
+    plain <| fetchAdd e c pc (.cnt (!cold)) "Relaxed" ov.toUInt64 (c.sh (!cold)).count.toUInt64 true
+      s!"collect: expected fetch_add Relaxed {ov} on the count of shard {!cold} -> {(c.sh (!cold)).count}"
+      ({ c with sh := modSh c.sh (!cold) (fun sd => { sd with count := sd.count + ov }) },
+       { pc with task := some (.colMove cold ov (l1 ++ l2) taken S) }, none)
+  | some (l1, .unlock, l2) =>
+    if !(l1 ++ l2).isEmpty then
+      .error s!"collect: unlock before the collect's last step (left: {", ".intercalate ((l1 ++ l2).map showStep)})"
+    else
+    match guard (e.k == "k" && parseLoc e.loc == .lk) "collect: expected unlock" (.ok ()) with
+    | .error m => .error m
+    | .ok () =>
+      .ok (({ c with lock := false, snaps := c.snaps ++ [(⟨ov, taken⟩, S)],
+                     asg := fun b => if b = cold then [] else c.asg (!cold) ++ c.asg cold },
+            { pc with task := none }, some (showSnap k ov taken)),
+           cuts ++ [⟨pc.c0, S, c.claimed, showSnap k ov taken⟩])
+  | none =>
+    match pc.zeros.find? (fun z => parseLoc e.loc == .bkt (!cold) z) with
+    | some z =>
+      -- the `fetch_add(0)` of an `addHot` the machine has taken silently: a stutter, accepted once
+      let x := (c.sh (!cold)).cell z
+      plain <| fetchAdd e c pc (.bkt (!cold) z) "Relaxed" 0 (u64OfInt x) true
+        s!"collect: expected fetch_add Relaxed 0 on bucket {z} of shard {!cold} -> {x}"
+        (c, { pc with zeros := pc.zeros.erase z }, none)
+    | none =>
+      .error s!"collect: no remaining step works on {e.loc} ({e.k}); left: {", ".intercalate (todo.map showStep)}"
 
 /-- the check of one event against the task the call currently is (after `skipPc`, see `evStep`) -/
 def evStep1 (k : Nat) (c : Hp.St) (cuts : Cuts) (e : Ev) (pc : Pc) : Except String (Res × Cuts) :=
@@ -232,6 +334,11 @@ def evStep1 (k : Nat) (c : Hp.St) (cuts : Cuts) (e : Ev) (pc : Pc) : Except Stri
         s!"collect: expected flip fetch_add AcqRel 2^63 on shard_and_count -> {hexStr (encSc c.hot c.n)}"
         ({ c with hot := !c.hot }, { pc with task := some (.colSpin c.hot c.n c.claimed) }, none)
   | some (.colSpin cold ov S) =>
+    if e.k == "L" then
+      -- test-and-test-and-set: a load of the cold count before a compare-exchange attempt changes nothing
+      plain <| guard (parseLoc e.loc == .cnt cold && ordGe e.ord "Relaxed" && e.res == (c.sh cold).count.toUInt64)
+        s!"collect: expected load of the count of shard {cold} -> {(c.sh cold).count}" (.ok (c, pc, none))
+    else
     plain <| guard (e.k == "C" && parseLoc e.loc == .cnt cold && ordGe e.ord "Acquire" && e.a == ov.toUInt64 && e.b == 0)
       s!"collect: expected spin cas Acquire {ov} -> 0 on the count of shard {cold}" <|
       if e.ok then
@@ -240,56 +347,12 @@ def evStep1 (k : Nat) (c : Hp.St) (cuts : Cuts) (e : Ev) (pc : Pc) : Except Stri
                 { pc with task := some (.colMove cold ov (prog k) (fun _ => 0) S) }, none))
       else
         guard (e.res == (c.sh cold).count.toUInt64) "failed spin cas reports a wrong count" (.ok (c, pc, none))
-  | some (.colMove cold ov (.swap cell :: todo) taken S) =>
-    let x := (c.sh cold).cell cell
-    let r : Res := ({ c with sh := modSh c.sh cold (fun sd => { sd with cell := setCell sd.cell cell 0 }) },
-                    { pc with task := some (.colMove cold ov todo (setCell taken cell x) S) }, none)
-    if cell < k then
-      plain <| guard (e.k == "W" && parseLoc e.loc == .bkt cold cell && ordGe e.ord "AcqRel" && e.a == 0 && e.res == u64OfInt x)
-        s!"collect: expected swap AcqRel 0 on bucket {cell} of shard {cold} -> {x}" (.ok r)
-    else
-      plain <| guard (e.k == "W" && parseLoc e.loc == .sum cold && ordGe e.ord "AcqRel" && e.a == 0 && sumRange x && e.res == f64OfInt x)
-        s!"collect: expected swap AcqRel 0.0 on the sum of shard {cold} -> {hexStr (f64OfInt x)}" (.ok r)
-  | some (.colMove cold ov (.addHot cell :: todo) taken S) =>
-    let x := (c.sh (!cold)).cell cell
-    let r : Res := ({ c with sh := modSh c.sh (!cold) (fun sd => { sd with cell := setCell sd.cell cell (sd.cell cell + taken cell) }) },
-                    { pc with task := some (.colMove cold ov todo taken S), cur := none, failed := false }, none)
-    if cell < k then
-      plain <| fetchAdd e c pc (.bkt (!cold) cell) "Relaxed" (u64OfInt (taken cell)) (u64OfInt x) true
-        s!"collect: expected fetch_add Relaxed {taken cell} on bucket {cell} of shard {!cold} -> {x}" r
-    else plain <| casLoop e c pc (!cold) cell (taken cell) r
-  | some (.colMove cold ov (.addCount :: todo) taken S) =>
-    plain <| fetchAdd e c pc (.cnt (!cold)) "Relaxed" ov.toUInt64 (c.sh (!cold)).count.toUInt64 true
-      s!"collect: expected fetch_add Relaxed {ov} on the count of shard {!cold} -> {(c.sh (!cold)).count}"
-      ({ c with sh := modSh c.sh (!cold) (fun sd => { sd with count := sd.count + ov }) },
-       { pc with task := some (.colMove cold ov todo taken S) }, none)
-  | some (.colMove cold ov (.unlock :: _) taken S) =>
-    match guard (e.k == "k" && parseLoc e.loc == .lk) "collect: expected unlock" (.ok ()) with
-    | .error m => .error m
-    | .ok () =>
-      .ok (({ c with lock := false, snaps := c.snaps ++ [(⟨ov, taken⟩, S)],
-                     asg := fun b => if b = cold then [] else c.asg (!cold) ++ c.asg cold },
-            { pc with task := none }, some (showSnap k ov taken)),
-           cuts ++ [⟨pc.c0, S, c.claimed, showSnap k ov taken⟩])
-  | some (.colMove _ _ [] _ _) => .error "event after the collect's last step"
+  | some (.colMove cold ov todo taken S) => colStep k c cuts e pc cold ov todo taken S
 
-/-- a collector may SKIP the no-op `fetch_add(0)` of its step `addHot cell` on a bucket (`cell < k`)
-    when the value it swapped out of the cold bucket is 0 (`taken cell = 0`): if that step is the next
-    one and the event at hand is not on that hot bucket, the step is taken silently (it adds 0, the
-    shared state does not change) and the event is checked against the rest of the program.
-    An event ON that hot bucket is checked against the `fetch_add(0)` as before. -/
-def skipTask (k : Nat) (loc : Loc) : Option Task → Option Task
-  | some (.colMove cold ov (.addHot cell :: todo) taken S) =>
-    if decide (cell < k) && decide (taken cell = 0) && loc != .bkt (!cold) cell
-    then some (.colMove cold ov todo taken S)
-    else some (.colMove cold ov (.addHot cell :: todo) taken S)
-  | t => t
-
-def skipPc (k : Nat) (e : Ev) (pc : Pc) : Pc := { pc with task := skipTask k (parseLoc e.loc) pc.task }
-
-/-- one event of an open call: at most one silent `addHot` of 0 (`skipPc`), then the check `evStep1` -/
+/-- one event of an open call (the check `evStep1`; the silent `addHot` of 0 is part of the collector's
+    swap, see `colStep`) -/
 def evStep (k : Nat) (c : Hp.St) (cuts : Cuts) (e : Ev) (pc : Pc) : Except String (Res × Cuts) :=
-  evStep1 k c cuts e (skipPc k e pc)
+  evStep1 k c cuts e pc
 
 /-- the observation an `obs:v` / `flush:v1+v2+…` call makes: weight, one entry per non-empty bucket
     (ascending), then the sum entry on cell `k` -/
